@@ -322,3 +322,75 @@ def inflight_request_during_exchange(inp):
                 except Exception:
                     pass
     return {"violates": bool(bad), "detail": bad}
+
+
+def inflight_transport_handled_requests(inp):
+    """peer traffic answered by the TRANSPORT's own handlers (a global request wanting a reply, a channel open) in flight
+    towards a side that has just sent its KEXINIT: the reply is a connection-layer message, so it must not go out between
+    that side's KEXINIT and NEWKEYS (a paramiko peer drops the connection on it: 'Expecting packet from (30,), got 82');
+    the exchange completes, the session stays up, the channel open is answered afterwards"""
+    import paramiko
+    from paramiko.common import cMSG_GLOBAL_REQUEST
+
+    class Srv(paramiko.ServerInterface):
+        def get_allowed_auths(self, u):
+            return "password"
+
+        def check_auth_password(self, u, p):
+            return paramiko.AUTH_SUCCESSFUL
+
+        def check_channel_request(self, kind, chanid):
+            return paramiko.OPEN_SUCCEEDED
+
+    bad = []
+    for who, what in (("client", "global-request"), ("server", "global-request"), ("server", "channel-open")):
+        c2s, s2c = _Dir(), _Dir()
+        cend, send = _End(c2s, s2c), _End(s2c, c2s)
+        ts = paramiko.Transport(send)
+        ts.add_server_key(_hostkey())
+        tc = paramiko.Transport(cend)
+        try:
+            ts.start_server(event=threading.Event(), server=Srv())
+            tc.start_client(timeout=15)
+            tc.auth_password("u", "p")
+            ch = tc.open_session(timeout=15)
+            sch = ts.accept(15)
+            for e in (cend, send):
+                e.latency = 0.3
+            rekeyer, other = (tc, ts) if who == "client" else (ts, tc)
+            threading.Thread(target=lambda: _quiet(rekeyer.renegotiate_keys), daemon=True).start()
+            time.sleep(0.1)
+            opened = {}
+            if what == "global-request":
+                m = Message()
+                m.add_byte(cMSG_GLOBAL_REQUEST)
+                m.add_string("nonesuch@example")
+                m.add_boolean(True)
+                other._send_user_message(m)
+            else:
+                def opener():
+                    try:
+                        opened["chan"] = tc.open_session(timeout=10)
+                    except Exception as e:
+                        opened["err"] = repr(e)
+                threading.Thread(target=opener, daemon=True).start()
+            time.sleep(3)
+            label = "%s in flight towards the %s, which has just started a re-exchange (link latency 0.3 s)" % (what, who)
+            if not tc.is_active() or not ts.is_active():
+                bad.append({"history": label, "why": "the session went down: client %r, server %r"
+                            % (str(tc.get_exception())[:80], str(ts.get_exception())[:80])})
+                continue
+            if not rekeyer.clear_to_send.is_set():
+                bad.append({"history": label, "why": "the exchange has not completed after 3 s"})
+                continue
+            if what == "channel-open" and "chan" not in opened:
+                bad.append({"history": label, "why": "the channel open was never answered: %r" % (opened,)})
+        except Exception as e:
+            bad.append({"history": "%s / %s" % (who, what), "why": "scenario raised %r" % (e,)})
+        finally:
+            for t in (tc, ts):
+                try:
+                    t.close()
+                except Exception:
+                    pass
+    return {"violates": bool(bad), "detail": bad}
